@@ -1,6 +1,6 @@
 SPECIFICATION Spec
 CONSTANTS
   MaxLen = 4
-  Symbols = {"FROM", "WHERE", "size", "ab", "12", "date", " ", ",", "(", "=", "-", "*", "ORDER", "gte"}
+  Symbols = {"FROM", "WHERE", "size", "ab", "12", "date", " ", ",", "(", "=", "-", "*", "ORDER", "gte", "line_count"}
   KnownWords <- MCKnown
 INVARIANTS SplitInvariance NoFuelExhaustion
